@@ -1421,6 +1421,66 @@ func TestVerifFramerDirected(t *testing.T) {
 			cl.close()
 		}
 	}
+	// failcommit: one leaseholder REFUSES the commit (its range would run into an existing
+	// domain), the other commits. A (index only) on node 1, B on node 2; session 1 stores Ai@6;
+	// session 2 (start 0) writes Ai,Bi @ {2, 8}: A's domain [0,9) overlaps [6,7) => node 1
+	// cannot commit. Every gateway x every slowed-down node (the slow node answers last).
+	var fc []map[string]any
+	for gw := 1; gw <= 2; gw++ {
+		for slow := 1; slow <= 2; slow++ {
+			o := map[string]any{"gateway": gw, "slow": slow}
+			fc = append(fc, o)
+			r := &vfRunner{c: c, keys: map[string]channel.Key{}, names: map[channel.Key]string{}, writers: map[string]*vfWriterState{},
+				maxT: 9, stats: &vfStats{}, setup: vfSetupArgs{Nodes: 2, Lease: map[string]int{"A": 1, "B": 2}}}
+			rec := &vfRec{}
+			cl, err := vfProvision(ctx, 2, rec)
+			if err == nil {
+				r.cl = cl
+				err = r.createChannels(ctx)
+			}
+			if err != nil {
+				o["error"] = err.Error()
+				continue
+			}
+			sy, au := false, false
+			w0, err := cl.nodes[1].Framer.OpenWriter(ctx, writer.Config{Keys: r.realKeys([]string{"Ai"}), Start: c.ts(6), Sync: &sy, EnableAutoCommit: &au})
+			if err != nil {
+				o["error"] = err.Error()
+				continue
+			}
+			_, _ = w0.Write(frame.NewMulti(r.realKeys([]string{"Ai"}), []telem.Series{c.series("Ai", []int{6}, 1)}))
+			_, e0 := w0.Commit()
+			e0c := w0.Close()
+			if e0 != nil || e0c != nil {
+				o["error"] = fmt.Sprint("session 1: ", e0, e0c)
+				continue
+			}
+			rec.slow = slow
+			w, err := cl.nodes[gw].Framer.OpenWriter(ctx, writer.Config{Keys: r.realKeys([]string{"Ai", "Bi"}), Start: c.ts(0), Sync: &sy, EnableAutoCommit: &au})
+			if err != nil {
+				o["open_err"] = err.Error()
+				continue
+			}
+			chs := []string{"Ai", "Bi"}
+			_, we, wh := vfCall(3*time.Second, func() (bool, error) {
+				return w.Write(frame.NewMulti(r.realKeys(chs), []telem.Series{c.series("Ai", []int{2, 8}, 2), c.series("Bi", []int{2, 8}, 2)}))
+			})
+			_, ce, ch := vfCall(3*time.Second, func() (telem.TimeStamp, error) { return w.Commit() })
+			a, _, _ := r.storeRead(1, "Ai")
+			b, _, _ := r.storeRead(2, "Bi")
+			o["write_err"], o["commit_err"], o["hangs"] = fmt.Sprint(we), fmt.Sprint(ce), wh || ch
+			o["commit_acked"] = ce == nil && !ch
+			o["A_samples_on_node1"], o["B_samples_on_node2"] = len(a), len(b)
+			// the leaseholder of A committed iff it now holds 3 samples
+			o["A_committed"] = len(a) == 3
+			if !(wh || ch) {
+				_, xe, _ := vfCall(3*time.Second, func() (int, error) { return 0, w.Close() })
+				o["close_err"] = fmt.Sprint(xe)
+				cl.close()
+			}
+		}
+	}
+	obs["failcommit"] = fc
 	of, err := os.Create(out)
 	if err != nil {
 		t.Fatal(err)
